@@ -146,7 +146,7 @@ def builders(ck):
         fs = [f for f in F.fn_all(SP + "::" + nm) if f.body is not None and (sel is None or sel(f))]
         ck.require(len(fs) == 1, "SimplePipeline::%s: %d definitions found" % (nm, len(fs)))
         ck.touch(fs[0])
-        builder_fidelity(ck, F, "C16-O6", fs[0], cls, "%s" % nm)
+        builder_fidelity(ck, F, "C16-O6", F.flat(fs[0]), cls, "%s" % nm)
         n += 1
     return n
 
